@@ -15,6 +15,17 @@ from eos.eve_obj.type import TypeFactory  # noqa: E402
 from eos.source import Source  # noqa: E402
 
 
+def _reserved():
+    from eos.const import eos as ce
+    from eos.const import eve as cv
+    def vals(*enums):
+        return {int(m) for e in enums for m in e}
+    return {'t': vals(cv.TypeId, ce.EosTypeId), 'a': vals(cv.AttrId), 'e': vals(cv.EffectId, ce.EosEffectId)}
+
+
+RESERVED = _reserved()
+
+
 class MemCache(BaseCacheHandler):
     def __init__(self):
         self.types = {}
@@ -25,8 +36,10 @@ class MemCache(BaseCacheHandler):
 
     def _id(self, k, given, table):
         if given is None:
+            # never hand out an id the engine gives a meaning of its own (type 1381 is every fit's character, 28668 the
+            # nanite paste, attribute / effect ids drive customisations and registers)
             self._next[k] += 1
-            while self._next[k] in table:
+            while self._next[k] in table or self._next[k] in RESERVED[k]:
                 self._next[k] += 1
             given = self._next[k]
         if given in table:
